@@ -1184,6 +1184,13 @@ class Response:
             self._bodyProtocol.dataReceived(data)
         self._bodyBuffer = None
 
+        if self._state == "DEFERRED_CLOSE":
+            # The end of the body (or the loss of the connection) was reported
+            # beneath one of the dataReceived calls above.
+            self._bodyProtocol.connectionLost(self._reason)
+            self._state = "FINISHED"
+            return
+
         self._state = "CONNECTED"
 
         # Now that there's a protocol to consume the body, resume the
